@@ -1,0 +1,26 @@
+//go:build verif
+
+package taskctl
+
+import (
+	"time"
+
+	"github.com/taskctl/taskctl/pkg/scheduler"
+)
+
+// VerifIdleHook is called at the end of every iteration of the scheduler's polling loop,
+// immediately before the pause. It only exists in builds with the "verif" tag and is used by
+// the external verification harness to observe the execution graph of a running job, to park
+// the loop at an iteration boundary and to shorten the pause.
+//
+// The hook receives the scheduler, the graph and a pointer to the cancelled flag. If it
+// returns override == true the pause of the scheduler is set to the returned duration.
+var VerifIdleHook func(s *Scheduler, g *scheduler.ExecutionGraph, cancelled *int32) (pause time.Duration, override bool)
+
+func (s *Scheduler) verifIdle(g *scheduler.ExecutionGraph) {
+	if hook := VerifIdleHook; hook != nil {
+		if pause, override := hook(s, g, &s.cancelled); override {
+			s.pause = pause
+		}
+	}
+}
